@@ -4,6 +4,7 @@ package main
 // runs natively (it is go/types, the arbiter), the adapter around it runs as SSA.
 
 import (
+	"fmt"
 	"go/ast"
 	"go/constant"
 	"go/token"
@@ -80,7 +81,11 @@ func init() {
 					if _, ok := r.(*goPanic); ok {
 						panic(r)
 					}
-					e.userPanic(Iface{T: types.Typ[types.String], V: "go/types infer panic"}, "go/types infer panic")
+					if re, isRT := r.(interface{ RuntimeError() }); isRT {
+						_ = re
+						panic(&goPanic{val: Iface{T: e.w.errorT, V: "RT:" + fmt.Sprint(r)}, runtime: true, msg: "runtime error inside go/types infer: " + fmt.Sprint(r), stack: e.stackString()})
+					}
+					e.userPanic(Iface{T: types.Typ[types.String], V: fmt.Sprint(r)}, "go/types infer panic: "+fmt.Sprint(r))
 				}
 			}()
 			res = types_checker_infer(check, atNoPos{}, tparams, targs, params, args, reverse, nerr)
